@@ -15,7 +15,7 @@ use refimpl as r;
 use refimpl::{Mode, Poly, Q};
 use serde_json::{json, Value};
 
-const RULE: &str = "the crate's own pipelines are replayed through verif_hooks exactly as ml_dsa.rs composes them and compared with the schoolbook negacyclic product in i128: (a) c*x = inv_ntt(mont_reduce(ntt(c) . to_mont(ntt(x)))) for tau-sparse +-1 challenges (all three tau) and x in [-eta,eta], [-4095,4096], t1*2^13; (b) A*v = inv_ntt(mat_vec_mul(A_hat, ntt(v))) for v in [-gamma1+1,gamma1] and [-eta,eta] at each (k,l); (c) verify's A*z - c*t1*2^d. Inputs: all 256 basis polynomials x scalars {1,-1,max,-max}, all-max, all-min, alternating, seeded random sign patterns of extremal magnitude, random in-range vectors, and sparse-coset adversarial rows (fixtures for ML-DSA-65/87, fresh search in thorough) which are also turned into FIPS-valid signatures and put through verify() against the reference. Violation = overflow-check panic, result not congruent to the schoolbook product, or inverse-NTT output outside [0,q). Evidence reports the largest |sum of inverse-NTT inputs| reached as a fraction of 2^31. Non-trivial = distinct input vectors per pipeline shape.";
+const RULE: &str = "the crate's own pipelines are replayed through verif_hooks exactly as ml_dsa.rs composes them and compared with the schoolbook negacyclic product in i128: (a) c*x = inv_ntt(mont_reduce(ntt(c) . to_mont(ntt(x)))) for tau-sparse +-1 challenges (all three tau) and x in [-eta,eta], [-4095,4096], t1*2^13; (b) A*v = inv_ntt(mat_vec_mul(A_hat, ntt(v))) for v in [-gamma1+1,gamma1] and [-eta,eta] at each (k,l); (c) verify's A*z - c*t1*2^d. Inputs: all 256 basis polynomials x scalars {1,-1,max,-max}, all-max, all-min, alternating, seeded random sign patterns of extremal magnitude, random in-range vectors, inverse-NTT inputs that are constant / two-valued over all 256 slots for every value where a reduction changes behaviour in the call-site range |x| < 8q (multiples of 2^23 and of q, +-2, powers of two, a seeded stride), mat_vec_mul with arbitrary (not ExpandA-derived) all-equal matrix and vector slots, and sparse-coset adversarial rows (fixtures for ML-DSA-65/87, fresh search in thorough) which are also turned into FIPS-valid signatures and put through verify() against the reference. Violation = overflow-check panic, result not congruent to the schoolbook product, or inverse-NTT output outside [0,q). Evidence reports the largest |sum of inverse-NTT inputs| reached as a fraction of 2^31. Non-trivial = distinct input vectors per pipeline shape.";
 
 pub fn run(ctx: &Ctx) -> StageOut {
     let mut acc = Acc::new();
@@ -227,6 +227,102 @@ fn run_set<S: PS>(ctx: &Ctx) -> Acc {
     });
     for a in accs {
         acc.merge(a);
+    }
+    // ---- inverse NTT on constant and two-valued slot vectors over the whole call-site input range ---
+    // Coefficient 0 of the inverse transform accumulates the plain sum of the 256 (reduced) inputs, so
+    // a constant vector c * (1,..,1) is the extreme case for every c; the sweep covers the points where
+    // an input reduction changes behaviour (multiples of 2^23 and of q, +-1, +-2) and a seeded stride.
+    if S::SET == 87 || ctx.sets.len() == 1 {
+        let lim = 8 * Q; // |x| < (l+1) q <= 8 q at every call site
+        let mut cs: Vec<i64> = Vec::new();
+        for k in -8i64..=8 {
+            for d in -2i64..=2 {
+                cs.push(k * (1 << 23) + d);
+                cs.push(k * Q + d);
+                cs.push(k * (1 << 23) + (1 << 22) + d);
+            }
+        }
+        for e in 20..27 {
+            cs.push((1i64 << e) - 1);
+            cs.push(-(1i64 << e) + 1);
+        }
+        let mut g = Prng::derive(ctx.seed, "c18-const", 0);
+        let stride = 20_011 + 2 * g.below(500) as i64;
+        let mut c = -lim + g.below(stride as u64) as i64;
+        while c < lim {
+            cs.push(c);
+            c += stride;
+        }
+        cs.retain(|c| c.abs() < lim);
+        cs.sort_unstable();
+        cs.dedup();
+        let chunks = 64usize;
+        let accs = par_map(chunks, |ch| {
+            let mut a = Acc::new();
+            for (idx, &c) in cs.iter().enumerate() {
+                if idx % chunks != ch {
+                    continue;
+                }
+                for pat in 0..3usize {
+                    a.eval();
+                    let inp: P = core::array::from_fn(|i| match pat {
+                        0 => c as i32,
+                        1 => if i < 128 { c as i32 } else { -(c as i32) },
+                        _ => if i % 2 == 0 { c as i32 } else { 0 },
+                    });
+                    let want = r::ntt_inv(&to_i64(&inp));
+                    let shape = ["inv_ntt-constant", "inv_ntt-halves", "inv_ntt-even-slots"][pat];
+                    let replay = || json!({"kind":"c18-invntt-const","c":c,"pattern":pat});
+                    match guarded(|| hk::inv_ntt::<1>(&[inp])[0]) {
+                        Err(pi) => panic_violation(&mut a, "C18", "inv_ntt", shape, &pi, replay()),
+                        Ok(got) => {
+                            if check_range_and_congruence(&mut a, shape, "all", &got, &want, &replay) {
+                                a.count(&format!("ok_{shape}"), 1);
+                                a.nontrivial(digest64(&[shape.as_bytes(), &c.to_le_bytes()]));
+                            }
+                        }
+                    }
+                }
+            }
+            a
+        });
+        for a in accs {
+            acc.merge(a);
+        }
+        acc.count("inv_ntt_constant_sweep_values", cs.len() as u64);
+    }
+    // ---- mat_vec_mul with arbitrary (not ExpandA-derived) matrix entries: all slots equal ---------------
+    {
+        let n_pairs = ctx.budget(6_000, 200_000) as usize;
+        let accs = par_map(64, |ch| {
+            let mut a = Acc::new();
+            let mut g = Prng::derive(ctx.seed, &format!("c18-mv-{}", p.name), ch as u64);
+            for _ in 0..n_pairs / 64 {
+                a.eval();
+                let av = *g.pick(&[Q - 1, 1, (Q - 1) / 2, 0]);
+                let av = if g.below(2) == 0 { g.range(0, Q - 1) } else { av };
+                let uv = g.range(-8 * Q + 1, 8 * Q - 1);
+                let a_hat: Vec<Vec<P>> = (0..p.k).map(|_| (0..p.l).map(|_| [av as i32; 256]).collect()).collect();
+                let u_hat: Vec<P> = (0..p.l).map(|_| [uv as i32; 256]).collect();
+                // every slot of every row equals l * a * u mod q
+                let slot = (p.l as i64 * ((av as i128 * uv as i128).rem_euclid(Q as i128) as i64)) % Q;
+                let want = r::ntt_inv(&[slot; 256]);
+                let replay = || json!({"kind":"c18-mv-const","set":S::SET,"a":av,"u":uv});
+                match guarded(|| S::h_inv_ntt_k(&S::h_mat_vec_mul(&a_hat, &u_hat))) {
+                    Err(pi) => panic_violation(&mut a, "C18", "mat_vec_mul/inv_ntt", "mv-constant-slots", &pi, replay()),
+                    Ok(got) => {
+                        if check_range_and_congruence(&mut a, "mv-constant-slots", p.name, &got[0], &want, &replay) && check_range_and_congruence(&mut a, "mv-constant-slots", p.name, &got[p.k - 1], &want, &replay) {
+                            a.count("ok_mv-constant-slots", 1);
+                            a.nontrivial(digest64(&[&[S::SET as u8], b"mvc", &av.to_le_bytes(), &uv.to_le_bytes()]));
+                        }
+                    }
+                }
+            }
+            a
+        });
+        for a in accs {
+            acc.merge(a);
+        }
     }
     // ---- adversarial rows: fixtures, and a fresh search in thorough --------------------------------
     adversarial_fixtures::<S>(ctx, &mut acc);
